@@ -34,6 +34,7 @@ CONSTANTS Enc,        \* encoding family: "utf-8" | "utf-16" | "utf-32" | "latin
           MaxStrings, MaxLen, MaxChunk,
           IncModes,   \* subset of BOOLEAN: values of encode(incremental=...) explored
           AllowTrunc, \* TRUE: the environment may end the stream inside a unit
+          MaxZeros,   \* behaviour generation: empty chunks per behaviour
           KeepHist    \* TRUE: record the cut vector (behaviour generation)
 
 ASSUME /\ Enc \in {"utf-8", "utf-16", "utf-32", "latin-1"}
@@ -196,7 +197,8 @@ ConfluenceAlways ==
     ph = "dec" =>
         LET m == Len(out)
             b == IF m = 0 /\ pos < BomLen THEN 0 ELSE EndOff(m)   \* last unit boundary <= pos
-        IN /\ out = SubSeq(Input, 1, m)
+        IN /\ m <= NChars
+           /\ out = SubSeq(Input, 1, m)
            /\ b <= pos
            /\ m < NChars => EndOff(m + 1) > pos
            /\ pending = SubSeq(wire, b + 1, pos)
@@ -218,9 +220,9 @@ RoundTrip == encinc => RoundTripAlways
 (* outside C17: the documented behaviour of incremental=False *)
 IndependentMode == ~encinc /\ ph = "done" /\ pos = Len(wire) => out = IndependentText
 
-(* bound for behaviour generation: at most two empty chunks *)
+(* bound for behaviour generation: empty chunks would otherwise repeat for ever *)
 Zeros(h) == Len(SelectSeq(h, LAMBDA x : x = 0))
-HistBound == Zeros(hist) <= 2 /\ Len(hist) <= Len(wire) + 2
+HistBound == Zeros(hist) <= MaxZeros
 
 (* behaviour generation: print the input and the environment choices at the end *)
 EmitBehaviour ==
